@@ -3,7 +3,7 @@
    distinguish exception classes, `finally` runs for all of them) or `Aborted (Some e)`
    (the strategy failed internally). *)
 From Coq Require Import ZArith NArith List Bool.
-From Lithium Require Import PyBase TcRecord Testcase Driver TraceSpec DriverProofs.
+From Lithium Require Import PyBase TcRecord Testcase Driver TraceSpec Minimize DriverProofs RestoreProofs.
 Import ListNotations.
 Open Scope Z_scope.
 
@@ -30,6 +30,16 @@ Theorem C02_abort_restores_unrestricted_refuted :
        w_file w = last_accepted (chron w) file0 /\ hooks_ok (chron w)).
 Proof. exact run_abort_restores_counterexample. Qed.
 
+(* minimize and minimize-collapse-brace (any post-round callback): the raw write happens only at
+   the end of a sweep, i.e. after the first candidate - which is never de-duplicated - was
+   tested, so for these strategies the file is restored after EVERY abort *)
+Theorem C02_minimize_like_restores :
+  forall cfg clk post verdict fuel tc0 file0 e w,
+    wf tc0 -> content tc0 = file0 ->
+    run (minimize cfg clk post) verdict fuel tc0 file0 = Aborted e w ->
+    w_file w = last_accepted (chron w) file0 /\ hooks_ok (chron w).
+Proof. exact minimize_like_abort_restores_corrected. Qed.
+
 (* hooks are also exactly-once on normal termination *)
 Theorem C02_hooks_finished :
   forall S (strat : strategy S) verdict fuel tc0 file0 rc w,
@@ -47,6 +57,7 @@ Theorem C02_kill_tempdir :
 Proof. exact kill_tempdir. Qed.
 
 Print Assumptions C02_abort_restores.
+Print Assumptions C02_minimize_like_restores.
 Print Assumptions C02_abort_restores_unrestricted_refuted.
 Print Assumptions C02_hooks_finished.
 Print Assumptions C02_kill_tempdir.
